@@ -20,11 +20,21 @@ ASSUMPTIONS = [
 ]
 
 
+class TagList(list):
+    """The ordered log; with a tagger set, every entry is prefixed by the tag (the running thread)."""
+    tagger = None
+
+    def append(self, e):
+        if self.tagger is not None:
+            e = (self.tagger(),) + tuple(e)
+        list.append(self, e)
+
+
 class Net:
     """Shared state of one simulated network: log, fault oracle, hooks."""
 
     def __init__(self):
-        self.log = []            # ordered request log
+        self.log = TagList()     # ordered request log
         self.fault = None        # callable(label, op) -> bool (True = fail)
         self.on_request = None   # callable(label, op) called before each request
         self.attempts = []       # (label, op, failed, epoch) for every per-device request
